@@ -730,8 +730,8 @@ def _strip_for_gen(v):
 
 
 def gen_scenario(rng, idx):
-    namespaced = rng.random() < 0.7
-    ns = "ns1" if namespaced else None
+    namespaced = rng.random() < 0.65
+    ns = "ns1" if (namespaced or rng.random() < 0.5) else None
     owner_ns = rng.choice(["ns1", "ns1", "other", None])
     malformed = None
     r = rng.random()
@@ -756,6 +756,9 @@ def gen_scenario(rng, idx):
         "drift": rng.random() < 0.6,
         "malformed": malformed,
     }
+    if rng.random() < 0.2:
+        # the target names a namespace itself (the same or another one than apiConfig's)
+        scn["doc"].setdefault("metadata", {})["namespace"] = rng.choice(["ns1", "elsewhere"])
     if scn["source"] == "template":
         scn["identity_in_template"] = rng.random() < 0.5
     if malformed is None and rng.random() < 0.3:
@@ -867,6 +870,26 @@ def gen_sequence(rng, ns):
     return plan
 
 
+def namespace_scenarios():
+    """every (namespaced flag x namespace supplied or not x target sets metadata.namespace: no / same / other)
+    combination, from an inline resource and from a template, on the create path and on the patch path."""
+    for namespaced in (True, False):
+        for ns in ("ns1", None):
+            for tns in (None, "ns1", "elsewhere"):
+                for source in ("inline", "template"):
+                    for mode in ("create", "patch"):
+                        for owned, owner_ns in ((True, "ns1"), (True, None), (False, "other")):
+                            md = {"labels": {"app": "a"}}
+                            if tns is not None:
+                                md["namespace"] = tns
+                            yield {"kind": "flow", "source": source,
+                                   "doc": {"metadata": md, "spec": {"x-koreo-compare-as-set": ["zones"],
+                                                                     "zones": ["a", "b"], "replicas": 2}},
+                                   "overlays": [], "overlay_via_vf": [False, False], "create_overlay": None,
+                                   "owned": owned, "namespaced": namespaced, "ns": ns, "owner_ns": owner_ns,
+                                   "mode": mode, "live_refs": [dict(OTHER_REF)], "drift": True, "malformed": None}
+
+
 def exhaustive_scenarios():
     """every owner/namespace combination x create/patch x reference situation, on one fixed target."""
     doc = {"metadata": {"labels": {"app": "a"}, "x-koreo-compare-as-set": ["finalizers"]},
@@ -958,8 +981,8 @@ def build_spec(scn, owned=None):
     kind = "Widget" if scn["namespaced"] else "Gadget"
     api = {"apiVersion": "example.dev/v1", "kind": kind, "plural": kind.lower() + "s", "name": "w1",
            "namespaced": scn["namespaced"], "owned": scn["owned"] if owned is None else owned}
-    if scn["namespaced"]:
-        api["namespace"] = scn["ns"]
+    if scn["ns"] is not None:
+        api["namespace"] = scn["ns"]          # also for namespaced: false (kr8s still gets the namespace)
     spec = {"apiConfig": api, "update": {"patch": {"delay": 7}}}
     if scn["source"] == "inline":
         spec["resource"] = copy.deepcopy(scn["doc"])
@@ -1053,15 +1076,26 @@ def run_flow(scn, cap: Capture):
                     return {"skip": f"prepare failed: {drivers.canon_outcome(err).get('message')}"}
                 fns[st["owned"]] = fn
         plural = kind.lower() + "s"
-        key = (plural, scn["ns"], "w1")
+        # kr8s sends mutations of a cluster-scoped class with namespace=None, but koreo GETs with the namespace
+        # apiConfig supplied; the in-memory cluster keys objects by namespace, so for `namespaced: false` +
+        # namespace the stored object (key) is mirrored under the key the GET uses before every reconcile
+        key = (plural, scn["ns"] if scn["namespaced"] else None, "w1")
+        get_key = (plural, scn["ns"], "w1")
         cl = Cluster()
         steps = []
+
+        def mirror():
+            if get_key != key:
+                cl.objects.pop(get_key, None)
+                if cl.objects.get(key) is not None:
+                    cl.objects[get_key] = copy.deepcopy(cl.objects[key])
 
         async def one(st):
             cfg = {"owned": st["owned"], "owner_ns": st["owner_ns"], "ns": scn["ns"],
                    "owner_ref": copy.deepcopy(OWNERS[st.get("owner", "P1")])}
             owner = (cfg["owner_ns"], copy.deepcopy(cfg["owner_ref"]))
             cap.take()
+            mirror()
             n0 = len(cl.calls)
             pre = copy.deepcopy(cl.objects.get(key))
             tpl_before = template_snapshot()
@@ -1336,6 +1370,8 @@ def check_flow(ctx: Ctx, scn, cap, cases, terms, shrink=True):
               f"{'(vf)' if any((scn.get('overlay_via_vf') or [False, False])[:len(scn['overlays'])]) else ''}")
     if scn["create_overlay"] is not None:
         ctx.count("flow:create-overlay")
+    ctx.count(f"flow:namespaced={scn['namespaced']},namespace={'given' if scn['ns'] else 'absent'},"
+              f"target-namespace={(scn['doc'].get('metadata') or {}).get('namespace', 'absent') if isinstance(scn['doc'].get('metadata'), dict) else 'absent'}")
     plan = steps_of(scn)
     for stp in plan:
         ctx.count(f"flow:own={stp['owned']},owner_ns={stp['owner_ns']},ns={scn['ns']}")
@@ -1422,6 +1458,8 @@ def run(ctx: Ctx):
         for scn in exhaustive_scenarios():
             check_flow(ctx, scn, cap, fcases, fterms)
         for scn in directive_origin_scenarios():
+            check_flow(ctx, scn, cap, fcases, fterms)
+        for scn in namespace_scenarios():
             check_flow(ctx, scn, cap, fcases, fterms)
         for scn in sequence_scenarios():
             check_flow(ctx, scn, cap, fcases, fterms)
